@@ -587,6 +587,43 @@ func wrapperShape(p *packages.Package, fd *ast.FuncDecl) (swapped, direct, ok bo
 			}
 		}
 	}
+	// a chain: value, c0 := bits.F(…); value, c1 := bits.F(value, …); return value, c0 + c1 — the value is threaded
+	// through the first results, the carry is made of the second ones only
+	if n := len(fd.Body.List); n >= 2 {
+		r, isRet := fd.Body.List[n-1].(*ast.ReturnStmt)
+		if isRet && len(r.Results) == 2 {
+			firsts, seconds := map[types.Object]bool{}, map[types.Object]bool{}
+			chain := true
+			for _, st := range fd.Body.List[:n-1] {
+				as, ok1 := st.(*ast.AssignStmt)
+				if !ok1 || len(as.Lhs) != 2 || len(as.Rhs) != 1 {
+					chain = false
+					break
+				}
+				call, isCall := ast.Unparen(as.Rhs[0]).(*ast.CallExpr)
+				if !isCall || !strings.HasPrefix(fullName(callee(info, call)), "math/bits.") {
+					chain = false
+					break
+				}
+				firsts[rootObj(info, as.Lhs[0])] = true
+				seconds[rootObj(info, as.Lhs[1])] = true
+			}
+			if chain && firsts[rootObj(info, r.Results[0])] {
+				onlySeconds := true
+				ast.Inspect(r.Results[1], func(m ast.Node) bool {
+					if id, ok := m.(*ast.Ident); ok {
+						if v, isVar := info.ObjectOf(id).(*types.Var); isVar && !seconds[v] {
+							onlySeconds = false
+						}
+					}
+					return true
+				})
+				if onlySeconds {
+					return false, false, true
+				}
+			}
+		}
+	}
 	return false, false, false
 }
 
